@@ -851,7 +851,12 @@ class ReadParquetPyarrowFS(ReadParquet):
     def _get_lengths(self):
         # TODO: Filters that only filter partition_expr can be used as well
         if not self.filters:
-            return tuple(stats["num_rows"] for stats in self.aggregated_statistics)
+            lengths = [stats["num_rows"] for stats in self.aggregated_statistics]
+            sort_index = self._fragment_sort_index()
+            if sort_index is not None:
+                # partitions are ordered like the divisions, not like the files
+                lengths = [lengths[i] for i in sort_index]
+            return tuple(lengths[i] for i in self._partitions)
 
     @cached_property
     def _dataset_info(self):
@@ -1317,11 +1322,7 @@ class ReadParquetFSSpec(ReadParquet):
         """Return known partition lengths using parquet statistics"""
         if not self.filters:
             self._update_length_statistics()
-            return tuple(
-                length
-                for i, length in enumerate(self._pq_length_stats)
-                if not self._filtered or i in self._partitions
-            )
+            return self._pq_length_stats
         return None
 
     def _update_length_statistics(self):
@@ -1330,10 +1331,10 @@ class ReadParquetFSSpec(ReadParquet):
         if not self._pq_length_stats:
             if self._plan["statistics"]:
                 # Already have statistics from original API call
+                # one entry per selected partition, in the order of the selection
+                statistics = self._plan["statistics"]
                 self._pq_length_stats = tuple(
-                    stat["num-rows"]
-                    for i, stat in enumerate(self._plan["statistics"])
-                    if not self._filtered or i in self._partitions
+                    statistics[i]["num-rows"] for i in self._partitions
                 )
             else:
                 # Need to go back and collect statistics
@@ -1562,11 +1563,7 @@ def _collect_pq_statistics(
 
     # Collect statistics using layer information
     fs = expr._io_func.fs
-    parts = [
-        part
-        for i, part in enumerate(expr._plan["parts"])
-        if not expr._filtered or i in expr._partitions
-    ]
+    parts = [expr._plan["parts"][i] for i in expr._partitions]
 
     # Execute with delayed for large and remote datasets
     parallel = int(False if _is_local_fs(fs) else 16)
